@@ -455,7 +455,7 @@ class C19(Prop):
     pid = "C19"
     manifest = dict(
         technique='Lean 4 theorems over the operator / value_type / resource tables REGENERATED from c7n_to_cel.py on every run (decide over the whole table + soundness lemma for all operands), q/celstr/STRING_LIT round trip for all strings by induction, divmod-loop vs. DurationType grammar for all n; differential correspondence of emitted text (Lean valueToCel vs. real translator) and of decisions (Lean denotation vs. real parser+evaluator+c7nlib) plus an independent Python relation oracle',
-        text='proof: every atomic_op_map entry denotes the relation its op names (all operands), every value_type lambda yields Custodian\'s operands, q(s) lexes as one token and decodes to s for ALL strings, seconds/age durations denote n / d*86400 s for ALL n incl. 0, key literals recompose the key; every resource-table entry (bare and in the smallest clause of its rewriter) lexes and is accepted by the parser of the grammar model (decide +kernel over the regenerated tables), every emitted table text is also parsed by the real parser on every run',
+        text='proof: every atomic_op_map entry denotes the relation its op names (all operands), every value_type lambda yields Custodian\'s operands, q(s) lexes as one token and decodes to s for ALL strings, seconds/age durations denote n / d*86400 s for ALL n incl. 0, key literals recompose the key; every resource-table entry (bare and in the smallest clause of its rewriter) lexes and is accepted by the parser of the grammar model (decide +kernel over the regenerated tables), every emitted table text is also parsed by the real parser on every run; glob: literal / prefix / suffix / infix patterns and stem+class patterns accept exactly what they should for ALL texts (glob_literal, glob_prefix, glob_suffix, glob_infix, glob_stem_class); list values: celstr(repr(s)) = s for ALL strings and every set of non-printable characters (list_literal_decodes_partial)',
         note='Lean kernel; propext/Quot.sound/Classical.choice only; source extractor gen_c19.py; the CEL evaluator on emitted TEXT is not modelled (lark, celpy evaluation, c7nlib functions compared by correspondence); Python float arithmetic in DurationType exact below 2^53',
         ref='DESIGN.md §5 C19, notes/C19.md')
     lean_targets = ["Cel.Props.C19", "Cel.Bridge.XlateTables"]
@@ -469,6 +469,8 @@ class C19(Prop):
         "DurationType's float arithmetic (`float(n) * scale`, `fsum`) is exact for the integers below 2^53 that occur",
         "tables_are_cel is proved against the token-level grammar model of C06 (Cel.Model.Grammar.parse, sound by Cel.Props.C06.parse_sound) behind this property's own text-level lexer model (Cel.Model.XlateCel.lexCel, incl. lark's contextual `in`-prefix quirk); lexer model and real parser are compared on every table text and on single-character perturbations (`cel` stream)",
         "PyYAML / the policy loader are not involved: clauses are given to the rewriter as Python dicts",
+        "Python's str.isprintable (Unicode database) is a parameter of the model's repr (`pyRepr np`): the harness passes the non-printable characters that occur",
+        "the model's glob is a direct matcher over parsed pattern pieces, not fnmatch's translation to a regular expression; classes with regex-flavoured members, reversed or chained ranges answer `none` (no opinion); compared with the real c7nlib.glob by the `clause` stream",
     ]
     rule = ("clause: every op name x value kind (str over an adversarial alphabet, int, bool, list of str/int) x value_type "
             "(none, size, integer, normalize, swap, unique_size, age, expiration) x resource values on both sides of the "
@@ -482,7 +484,11 @@ class C19(Prop):
             "and without context, q with either quote, secs vs age, value_to_cel with different op / value_type), every "
             "ordered pair plus random longer histories, each output compared with the same call on a freshly executed "
             "copy of the module; dur also takes fractional and textual counts (below one second, around whole seconds); "
-            "vfrom: value_from url/format/expr strings. non-trivial = a clause whose resource value is on the "
+            "vfrom: value_from url/format/expr strings; glob clauses: every pattern shape (literal, one-/two-sided and inner *, ?, "
+            "[seq] / [!seq] / ranges at the start, middle, end, classes quoting a wildcard, unclosed [, regex-special characters) x texts "
+            "built from the pattern (instances, instances with one piece violated, the pattern's own text, one character added at either "
+            "end, empty); list values with elements over the whole adversarial alphabet (either/both quotes, backslash-escape look-alikes, "
+            "controls, C1, separators, combining, astral) x resource = each element / a neighbour / the whole list. non-trivial = a clause whose resource value is on the "
             "boundary (reference decision flips within the generated neighbourhood), a string containing a character q must "
             "escape, a count that is 0 or a multiple of a unit, any table entry")
 
